@@ -246,54 +246,87 @@ impl VersionGraph {
 
 		let mut versions = IndexMap::new();
 
+		// The order in which `read_dir` lists the files depends on the platform and the file system, and the graph must
+		// not depend on it. Sorting also fixes the node and edge indices, and with them the `.dot` output and the path
+		// `apply_diffs` takes if there are several equally short ones.
+		let mut files = Vec::new();
 		for file in std::fs::read_dir(&dir)
 			.with_context(|| anyhow!("cannot read version graph from {:?}", dir.as_ref()))?
 		{
 			let file = file?;
 
-			let path = file.path();
-
 			let file_name = file.file_name().into_string()
 				.map_err(|file_name| anyhow!("failed to turn file name {file_name:?} into a string"))?;
 
-			fn add_node(
-				versions: &mut IndexMap<String, (Split, NodeIndex)>,
-				graph: &mut Graph<NodeData, EdgeData>,
-				version_str: &str
-			) -> NodeIndex {
-				if let Some((client, server)) = version_str.split_once('~') {
-					let node_index = versions.entry(client.to_owned())
-						.or_insert_with(|| (Split::First, graph.add_node(NodeData::new(version_str)))).1;
+			files.push((file_name, file.path()));
+		}
+		files.sort_by(|a, b| a.0.cmp(&b.0));
 
-					versions.entry(server.to_owned())
-						.or_insert((Split::Second, node_index));
-
-					node_index
-				} else {
-					versions.entry(version_str.to_owned())
-						.or_insert_with_key(|k| (Split::None, graph.add_node(NodeData::new(k)))).1
-				}
-			}
-
+		// the version a file is for, and for a diff the parent version it is based on
+		let mut entries = Vec::new();
+		for (file_name, path) in &files {
 			if let Some(version_str) = file_name.strip_suffix(MAPPINGS_EXTENSION) {
-
-				let v = add_node(&mut versions, &mut graph, version_str);
-
-				if let Some((old_root, ref old_path)) = root {
-					bail!("multiple roots present: {old_version:?} ({old_path:?}) and {version_str:?} ({path:?})", old_version = &graph[old_root].name);
-				}
-				root = Some((v, path));
+				entries.push((None, version_str, path));
 			} else if let Some(raw_versions) = file_name.strip_suffix(DIFF_EXTENSION) {
 				let Some((parent, version)) = raw_versions.split_once('#') else {
 					bail!("expected there to be exactly one `#` in the diff file name {file_name:?}");
 				};
+				entries.push((Some(parent), version, path));
+			}
+		}
 
-				let v = add_node(&mut versions, &mut graph, version);
-				let p = add_node(&mut versions, &mut graph, parent);
+		fn add_node(
+			versions: &mut IndexMap<String, (Split, NodeIndex)>,
+			graph: &mut Graph<NodeData, EdgeData>,
+			version_str: &str
+		) -> Result<NodeIndex> {
+			if let Some((client, server)) = version_str.split_once('~') {
+				let node_index = versions.entry(client.to_owned())
+					.or_insert_with(|| (Split::First, graph.add_node(NodeData::new(version_str)))).1;
 
-				let edge = EdgeData { path };
+				let server_node_index = versions.entry(server.to_owned())
+					.or_insert((Split::Second, node_index)).1;
 
-				graph.add_edge(p, v, edge);
+				// both halves must stand for this version, and not for another one
+				for (half, half_node_index) in [(client, node_index), (server, server_node_index)] {
+					let other = &graph[half_node_index].name;
+					if other != version_str {
+						bail!("ambiguous version {half:?}: it stands for both {other:?} and {version_str:?}");
+					}
+				}
+
+				Ok(node_index)
+			} else {
+				Ok(versions.entry(version_str.to_owned())
+					.or_insert_with_key(|k| (Split::None, graph.add_node(NodeData::new(k)))).1)
+			}
+		}
+
+		// A version `client~server` can be looked up by either half, and other file names may use a half on its own. All
+		// of these versions are added first: then such a half always stands for the `client~server` version, and not
+		// for a version of its own if its file happens to come first.
+		for &(parent, version, _) in &entries {
+			for version_str in [Some(version), parent].into_iter().flatten().filter(|x| x.contains('~')) {
+				add_node(&mut versions, &mut graph, version_str)?;
+			}
+		}
+
+		for (parent, version_str, path) in entries {
+			let v = add_node(&mut versions, &mut graph, version_str)?;
+
+			if let Some(parent) = parent {
+				let p = add_node(&mut versions, &mut graph, parent)?;
+
+				if let Some(edge) = graph.find_edge(p, v) {
+					bail!("multiple diffs from {:?} to {:?}: {:?} and {path:?}", &graph[p].name, &graph[v].name, &graph[edge].path);
+				}
+
+				graph.add_edge(p, v, EdgeData { path: path.clone() });
+			} else {
+				if let Some((old_root, ref old_path)) = root {
+					bail!("multiple roots present: {old_version:?} ({old_path:?}) and {version_str:?} ({path:?})", old_version = &graph[old_root].name);
+				}
+				root = Some((v, path.clone()));
 			}
 		}
 
